@@ -225,173 +225,542 @@ theorem inv_fail (s : St) (t : Nat) (h : Inv s) (ht : t ∈ s.inflight) (htq : t
       errOutcome := herr
       res := by have := h.res; rw [hres] at this; simp only [fail, hres]; exact this }
 
-theorem inv_pollLoop (fuel : Nat) (s : St) (h : Inv s) : Inv (pollLoop fuel s) := by
+/-! ## the delay gate and the start bookkeeping -/
+
+/-- `s'` differs from `s` only in the gate bookkeeping (`fresh`, `armed`, `released`, ghosts) -/
+def CoreEq (s s' : St) : Prop :=
+  s'.k = s.k ∧ s'.n = s.n ∧ s'.pending = s.pending ∧ s'.inflight = s.inflight ∧ s'.queue = s.queue ∧
+  s'.outcomes = s.outcomes ∧ s'.started = s.started ∧ s'.errors = s.errors ∧ s'.winner = s.winner ∧
+  s'.result = s.result ∧ s'.maxIn = s.maxIn
+
+theorem outcomeOf_congr (s s' : St) (h : s'.outcomes = s.outcomes) (i : Nat) : outcomeOf s' i = outcomeOf s i := by
+  unfold outcomeOf; rw [h]
+
+theorem inv_coreEq (s s' : St) (e : CoreEq s s') (h : Inv s) : Inv s' := by
+  obtain ⟨e1, e2, e3, e4, e5, e6, e7, e8, e9, e10, e11⟩ := e
+  refine ⟨by rw [e1]; exact h.kpos, by rw [e3, e4, e8, e9, e2]; exact h.perm, by rw [e4, e1]; exact h.window,
+    by rw [e5, e4]; exact h.qsub, by rw [e5]; exact h.qnodup, by rw [e9, e4, e3]; exact h.refill,
+    by rw [e7]; exact h.startedNodup, ?_, ?_, by rw [e11, e1]; exact h.maxIn, ?_⟩
+  · intro i hi; rw [outcomeOf_congr s s' e6]; exact h.errOutcome i (e8 ▸ hi)
+  · intro w hw; rw [outcomeOf_congr s s' e6]; exact h.winOutcome w (e9 ▸ hw)
+  · rw [e10]
+    have := h.res
+    cases hr : s.result with
+    | none => rw [hr] at this; simp only; rw [e9]; exact this
+    | some r =>
+      rw [hr] at this
+      cases r with
+      | ok w es => simp only at this ⊢; rw [e9, e8]; exact this
+      | err es => simp only at this ⊢; rw [e8, e4, e3, e9]; exact this
+
+/-- start bookkeeping; `st` is the started list the ghost `startedAt` must describe -/
+structure SInvP (s : St) (st : List Nat) : Prop where
+  sub : ∀ i ∈ s.started, i ∈ s.inflight ∨ i ∈ s.errors ∨ s.winner = some i
+  errSt : ∀ i ∈ s.errors, i ∈ s.started
+  winSt : ∀ w, s.winner = some w → w ∈ s.started
+  g0 : s.startedAt.map (·.1) = st
+  g1 : ∀ e ∈ s.armed, ∃ t1, (e.1, t1) ∈ s.polledAt ∧ t1 + delayOf s e.1 ≤ e.2
+  g2 : ∀ a ∈ s.released, ∃ t1, (a, t1) ∈ s.polledAt ∧ t1 + delayOf s a ≤ s.now
+  g3 : ∀ e ∈ s.startedAt, ∃ t1, (e.1, t1) ∈ s.polledAt ∧ t1 + delayOf s e.1 ≤ e.2
+  g5 : ∀ e ∈ s.polledAt, ∃ t0, s.firstPoll = some t0 ∧ t0 ≤ e.2
+  g7 : ∀ t0, s.firstPoll = some t0 → t0 ≤ s.now
+  g8 : s.firstPoll = none → s.polledAt = []
+
+abbrev SInv (s : St) : Prop := SInvP s s.started
+
+/-- the started list after polling dial `t` -/
+def startedWith (s : St) (t : Nat) : List Nat := if s.started.contains t then s.started else s.started ++ [t]
+
+theorem sinv_deq (s : St) (t : Nat) (q : List Nat) (h : SInvP s (startedWith s t)) (ht : t ∈ s.inflight) :
+    SInv (deq s t q) ∧ t ∈ (deq s t q).started := by
+  have hst : (deq s t q).started = startedWith s t := rfl
+  have hmem : ∀ i, i ∈ startedWith s t ↔ i ∈ s.started ∨ i = t := by
+    intro i; unfold startedWith
+    split
+    · rename_i hc
+      have : t ∈ s.started := by simpa using hc
+      constructor
+      · exact Or.inl
+      · rintro (h | rfl) <;> assumption
+    · simp
+  refine ⟨⟨?_, ?_, ?_, ?_, h.g1, h.g2, h.g3, h.g5, h.g7, h.g8⟩, ?_⟩
+  · intro i hi
+    rw [hst, hmem] at hi
+    rcases hi with hi | rfl
+    · exact h.sub i hi
+    · exact Or.inl ht
+  · intro i hi; rw [hst, hmem]; exact Or.inl (h.errSt i hi)
+  · intro w hw; rw [hst, hmem]; exact Or.inl (h.winSt w hw)
+  · rw [hst]; exact h.g0
+  · rw [hst, hmem]; exact Or.inr rfl
+
+theorem sinv_succeed (s : St) (t : Nat) (h : SInv s) (hw : s.winner = none) (ht : t ∈ s.started) :
+    SInv (succeed s t) := by
+  refine ⟨?_, h.errSt, ?_, h.g0, h.g1, h.g2, h.g3, h.g5, h.g7, h.g8⟩
+  · intro i hi
+    by_cases hit : i = t
+    · exact Or.inr (Or.inr (by rw [hit]; rfl))
+    · rcases h.sub i hi with h1 | h1 | h1
+      · exact Or.inl ((List.mem_erase_of_ne hit).2 h1)
+      · exact Or.inr (Or.inl h1)
+      · rw [hw] at h1; cases h1
+  · intro w hw'
+    have : w = t := by simpa [succeed] using hw'.symm
+    rw [this]; exact ht
+
+theorem sinv_fail (s : St) (t : Nat) (h : SInv s) (ht : t ∈ s.started) : SInv (fail s t) := by
+  refine ⟨?_, ?_, h.winSt, h.g0, h.g1, h.g2, h.g3, h.g5, h.g7, h.g8⟩
+  · intro i hi
+    by_cases hit : i = t
+    · exact Or.inr (Or.inl (by rw [hit]; show t ∈ s.errors ++ [t]; simp))
+    · rcases h.sub i hi with h1 | h1 | h1
+      · exact Or.inl ((List.mem_erase_of_ne hit).2 h1)
+      · exact Or.inr (Or.inl (List.mem_append_left _ h1))
+      · exact Or.inr (Or.inr h1)
+  · intro i hi
+    rcases List.mem_append.1 hi with h1 | h1
+    · exact h.errSt i h1
+    · simp at h1; rw [h1]; exact ht
+
+theorem sinv_startNext (s : St) (h : SInv s) : SInv (startNext s) := by
+  unfold startNext
+  split
+  · exact h
+  · refine ⟨?_, h.errSt, h.winSt, h.g0, h.g1, h.g2, h.g3, h.g5, h.g7, h.g8⟩
+    intro i hi
+    rcases h.sub i hi with h1 | h1 | h1
+    · exact Or.inl (List.mem_append_left _ h1)
+    · exact Or.inr (Or.inl h1)
+    · exact Or.inr (Or.inr h1)
+
+theorem startNext_started (s : St) : (startNext s).started = s.started := by
+  unfold startNext; split <;> rfl
+
+/-- invariant of the whole machine -/
+structure Full (s : St) : Prop where
+  inv : Inv s
+  sinv : SInv s
+
+/-- the tail of one loop iteration once the dial future of `t` is reached -/
+theorem full_pass_tail (fuel : Nat) (ih : ∀ s : St, Full s → s.firstPoll.isSome = true → Full (pollLoop fuel s))
+    (s : St) (t : Nat) (q : List Nat) (hI : Inv s) (hS : SInvP s (startedWith s t)) (hq : s.queue = t :: q)
+    (hres : s.result = none) (hfp : s.firstPoll.isSome = true) :
+    Full (match outcomeOf s t with
+      | none => pollLoop fuel (deq s t q)
+      | some true => succeed (deq s t q) t
+      | some false => pollLoop fuel (startNext (fail (deq s t q) t))) := by
+  have hw : s.winner = none := by have := hI.res; rw [hres] at this; exact this
+  have hd := inv_deq s t q hI hq
+  have hqn : (t :: q).Nodup := hq ▸ hI.qnodup
+  have htin : t ∈ (deq s t q).inflight := hI.qsub t (by rw [hq]; simp)
+  have htq : t ∉ (deq s t q).queue := (List.nodup_cons.1 hqn).1
+  obtain ⟨hsd, hts⟩ := sinv_deq s t q hS htin
+  split
+  · exact ih _ ⟨hd, hsd⟩ hfp
+  · rename_i ho
+    exact ⟨inv_succeed _ t hd htin htq hw ho, sinv_succeed _ t hsd hw hts⟩
+  · rename_i ho
+    refine ih _ ⟨inv_fail _ t hd htin htq hres ho, sinv_startNext _ (sinv_fail _ t hsd hts)⟩ ?_
+    have : (startNext (fail (deq s t q) t)).firstPoll = s.firstPoll := by
+      unfold startNext; split <;> rfl
+    rw [this]; exact hfp
+
+/-- the states `gate` can produce -/
+def armSt (s : St) (t : Nat) (q : List Nat) : St :=
+  { s with queue := q, fresh := s.fresh.erase t, polledAt := s.polledAt ++ [(t, s.now)], armed := s.armed ++ [(t, s.now + delayOf s t)] }
+def markStarted (s : St) (t : Nat) : List (Nat × Nat) :=
+  if s.started.contains t then s.startedAt else s.startedAt ++ [(t, s.now)]
+def passFreshSt (s : St) (t : Nat) : St :=
+  { s with fresh := s.fresh.erase t, polledAt := s.polledAt ++ [(t, s.now)], startedAt := markStarted s t }
+def passRelSt (s : St) (t : Nat) : St :=
+  { s with released := s.released.erase t, startedAt := markStarted s t }
+
+theorem gate_wait_cases (s : St) (t : Nat) (q : List Nat) (s' : St) (hg : gate s t q = .wait s') :
+    (delayOf s t ≠ 0 ∧ s' = armSt s t q) ∨ (s' = { s with queue := q }) := by
+  unfold gate at hg
+  split at hg
+  · split at hg
+    · cases hg
+    · rename_i hd
+      injection hg with e
+      exact Or.inl ⟨by simpa using hd, e.symm⟩
+  · split at hg
+    · cases hg
+    · split at hg
+      · cases hg
+      · injection hg with e
+        exact Or.inr e.symm
+
+theorem gate_pass_cases (s : St) (t : Nat) (q : List Nat) (s' : St) (hg : gate s t q = .pass s') :
+    (delayOf s t = 0 ∧ s' = passFreshSt s t) ∨ (t ∈ s.released ∧ s' = passRelSt s t) ∨
+    (s.started.contains t = true ∧ s' = s) := by
+  unfold gate at hg
+  split at hg
+  · split at hg
+    · rename_i hd
+      injection hg with e
+      exact Or.inl ⟨by simpa using hd, e.symm⟩
+    · cases hg
+  · split at hg
+    · rename_i hr
+      injection hg with e
+      exact Or.inr (Or.inl ⟨by simpa using hr, e.symm⟩)
+    · split at hg
+      · rename_i hst
+        injection hg with e
+        exact Or.inr (Or.inr ⟨hst, e.symm⟩)
+      · cases hg
+
+theorem full_pollLoop (fuel : Nat) (s : St) (h : Full s) (hfp : s.firstPoll.isSome = true) :
+    Full (pollLoop fuel s) := by
   induction fuel generalizing s with
   | zero => exact h
   | succ fuel ih =>
+    obtain ⟨hI, hS⟩ := h
     unfold pollLoop
     split
-    · exact h
+    · exact ⟨hI, hS⟩
     · rename_i hres
       have hnone : s.result = none := by simpa using hres
-      have hw : s.winner = none := by have := h.res; rw [hnone] at this; exact this
+      have hw : s.winner = none := by have := hI.res; rw [hnone] at this; exact this
       split
       · rename_i hemp
         have hemp' : s.inflight = [] := by simpa using hemp
-        exact { h with res := by simp [hemp', h.refill hw hemp', hw] }
+        exact ⟨{ hI with res := by simp [hemp', hI.refill hw hemp', hw] },
+          ⟨hS.sub, hS.errSt, hS.winSt, hS.g0, hS.g1, hS.g2, hS.g3, hS.g5, hS.g7, hS.g8⟩⟩
       · split
-        · exact h
+        · exact ⟨hI, hS⟩
         · rename_i t q hq
-          have hd := inv_deq s t q h hq
-          have hqn : (t :: q).Nodup := hq ▸ h.qnodup
-          have htin : t ∈ (deq s t q).inflight := h.qsub t (by rw [hq]; simp)
-          have htq : t ∉ (deq s t q).queue := (List.nodup_cons.1 hqn).1
-          split
-          · exact ih _ hd
-          · rename_i ho
-            exact inv_succeed _ t hd htin htq hw ho
-          · rename_i ho
-            exact ih _ (inv_fail _ t hd htin htq hnone ho)
+          obtain ⟨t0, ht0⟩ := Option.isSome_iff_exists.1 hfp
+          have hnow := hS.g7 t0 ht0
+          have hqn : (t :: q).Nodup := hq ▸ hI.qnodup
+          -- the wrapper stays pending: only the queue (and gate bookkeeping) changes
+          have waitInv : ∀ s' : St, CoreEq { s with queue := q } s' → Inv s' := by
+            intro s' e
+            refine inv_coreEq _ s' e ?_
+            exact { hI with
+              qsub := fun i hi => hI.qsub i (by rw [hq]; exact List.mem_cons_of_mem t (show i ∈ q from hi))
+              qnodup := (List.nodup_cons.1 hqn).2 }
+          have startedAt_cases : ∀ e, e ∈ markStarted s t → e ∈ s.startedAt ∨ e = (t, s.now) := by
+            intro e he
+            unfold markStarted at he
+            split at he
+            · exact Or.inl he
+            · simpa using he
+          have startedAt_map : (markStarted s t).map (·.1) = startedWith s t := by
+            unfold startedWith markStarted
+            split
+            · exact hS.g0
+            · simp [hS.g0]
+          cases hg : gate s t q with
+          | wait s' =>
+            simp only
+            rcases gate_wait_cases s t q s' hg with ⟨_, he⟩ | he <;> subst he
+            · -- fresh wrapper with a delay: the `Delay` is armed, the wrapper stays pending
+              refine ih _ ⟨waitInv _ ⟨rfl, rfl, rfl, rfl, rfl, rfl, rfl, rfl, rfl, rfl, rfl⟩, ?_⟩ hfp
+              refine ⟨hS.sub, hS.errSt, hS.winSt, hS.g0, ?_, ?_, ?_, ?_, hS.g7, ?_⟩
+              · intro e he
+                rcases List.mem_append.1 he with h1 | h1
+                · obtain ⟨t1, h1', h2⟩ := hS.g1 e h1
+                  exact ⟨t1, List.mem_append_left _ h1', h2⟩
+                · simp at h1; subst h1
+                  exact ⟨s.now, List.mem_append_right _ (by simp), Nat.le_refl _⟩
+              · intro a ha
+                obtain ⟨t1, h1, h2⟩ := hS.g2 a ha
+                exact ⟨t1, List.mem_append_left _ h1, h2⟩
+              · intro e he
+                obtain ⟨t1, h1, h2⟩ := hS.g3 e he
+                exact ⟨t1, List.mem_append_left _ h1, h2⟩
+              · intro e he
+                rcases List.mem_append.1 he with h1 | h1
+                · exact hS.g5 e h1
+                · simp at h1; subst h1; exact ⟨t0, ht0, hnow⟩
+              · intro hn; have hn' : s.firstPoll = none := hn; rw [ht0] at hn'; cases hn'
+            · -- spurious wake-up of a wrapper still behind its `Delay`
+              exact ih _ ⟨waitInv _ ⟨rfl, rfl, rfl, rfl, rfl, rfl, rfl, rfl, rfl, rfl, rfl⟩,
+                ⟨hS.sub, hS.errSt, hS.winSt, hS.g0, hS.g1, hS.g2, hS.g3, hS.g5, hS.g7, hS.g8⟩⟩ hfp
+          | pass s' =>
+            simp only
+            rcases gate_pass_cases s t q s' hg with ⟨hd0, he⟩ | ⟨hrel, he⟩ | ⟨hst, he⟩
+            · -- fresh wrapper without delay: the dial is started now
+              subst he
+              refine full_pass_tail fuel ih _ t q ?_ ?_ hq hnone hfp
+              · exact inv_coreEq s _ ⟨rfl, rfl, rfl, rfl, rfl, rfl, rfl, rfl, rfl, rfl, rfl⟩ hI
+              · refine ⟨hS.sub, hS.errSt, hS.winSt, startedAt_map, ?_, ?_, ?_, ?_, hS.g7, ?_⟩
+                · intro e he
+                  obtain ⟨t1, h1, h2⟩ := hS.g1 e he
+                  exact ⟨t1, List.mem_append_left _ h1, h2⟩
+                · intro a ha
+                  obtain ⟨t1, h1, h2⟩ := hS.g2 a ha
+                  exact ⟨t1, List.mem_append_left _ h1, h2⟩
+                · intro e he
+                  rcases startedAt_cases e he with he' | rfl
+                  · obtain ⟨t1, h1, h2⟩ := hS.g3 e he'
+                    exact ⟨t1, List.mem_append_left _ h1, h2⟩
+                  · refine ⟨s.now, List.mem_append_right _ (by simp), ?_⟩
+                    show s.now + delayOf s t ≤ s.now
+                    omega
+                · intro e he
+                  rcases List.mem_append.1 he with h1 | h1
+                  · exact hS.g5 e h1
+                  · simp at h1; subst h1; exact ⟨t0, ht0, hnow⟩
+                · intro hn; have hn' : s.firstPoll = none := hn; rw [ht0] at hn'; cases hn'
+            · -- the `Delay` has fired: the dial is started now
+              subst he
+              refine full_pass_tail fuel ih _ t q ?_ ?_ hq hnone hfp
+              · exact inv_coreEq s _ ⟨rfl, rfl, rfl, rfl, rfl, rfl, rfl, rfl, rfl, rfl, rfl⟩ hI
+              · refine ⟨hS.sub, hS.errSt, hS.winSt, startedAt_map, hS.g1, ?_, ?_, hS.g5, hS.g7, hS.g8⟩
+                · intro a ha
+                  exact hS.g2 a (List.mem_of_mem_erase ha)
+                · intro e he
+                  rcases startedAt_cases e he with he' | rfl
+                  · exact hS.g3 e he'
+                  · exact hS.g2 t hrel
+            · -- an already started dial was woken by its completion
+              rw [he]
+              refine full_pass_tail fuel ih s t q hI ?_ hq hnone hfp
+              have : startedWith s t = s.started := by unfold startedWith; rw [if_pos hst]
+              rw [this]; exact hS
 
-theorem inv_step (s : St) (o : Op) (h : Inv s) : Inv (step s o).1 := by
+theorem full_poll (s : St) (h : Full s) : Full (poll s) := by
+  unfold poll
+  simp only
+  cases hf : s.firstPoll with
+  | some t0 =>
+    simp only [Option.isSome_some, ↓reduceIte]
+    exact full_pollLoop _ s h (by rw [hf]; rfl)
+  | none =>
+    simp only [Option.isSome_none, Bool.false_eq_true, ↓reduceIte]
+    obtain ⟨hI, hS⟩ := h
+    have hpa := hS.g8 hf
+    refine full_pollLoop _ _ ⟨inv_coreEq s _ ⟨rfl, rfl, rfl, rfl, rfl, rfl, rfl, rfl, rfl, rfl, rfl⟩ hI, ?_⟩ rfl
+    refine ⟨hS.sub, hS.errSt, hS.winSt, hS.g0, hS.g1, hS.g2, hS.g3, ?_, ?_, ?_⟩
+    · intro e he
+      have : e ∈ s.polledAt := he
+      rw [hpa] at this; cases this
+    · intro t0 h0
+      have : s.now = t0 := by simpa using h0
+      show t0 ≤ s.now
+      omega
+    · intro hn; cases hn
+
+theorem full_complete (s : St) (i : Nat) (b : Bool) (h : Full s) : Full (complete s i b) := by
+  refine ⟨inv_complete s i b h.inv, ?_⟩
+  have hS := h.sinv
+  unfold complete
+  split
+  · exact hS
+  · split <;> exact ⟨hS.sub, hS.errSt, hS.winSt, hS.g0, hS.g1, hS.g2, hS.g3, hS.g5, hS.g7, hS.g8⟩
+
+/-- one released wrapper, given a witness that its delay has elapsed -/
+theorem full_release (s : St) (a : Nat) (h : Full s)
+    (hw : ∃ t1, (a, t1) ∈ s.polledAt ∧ t1 + delayOf s a ≤ s.now) : Full (release s a) := by
+  obtain ⟨hI, hS⟩ := h
+  have hS1 : SInv { s with released := s.released ++ [a] } := by
+    refine ⟨hS.sub, hS.errSt, hS.winSt, hS.g0, hS.g1, ?_, hS.g3, hS.g5, hS.g7, hS.g8⟩
+    intro x hx
+    rcases List.mem_append.1 hx with h1 | h1
+    · exact hS.g2 x h1
+    · simp at h1; subst h1; exact hw
+  unfold release
+  simp only
+  split
+  · rename_i hc
+    simp only [Bool.and_eq_true, List.contains_eq_mem, decide_eq_true_eq, Bool.not_eq_eq_eq_not,
+      Bool.not_true, decide_eq_false_iff_not] at hc
+    refine ⟨?_, ⟨hS1.sub, hS1.errSt, hS1.winSt, hS1.g0, hS1.g1, hS1.g2, hS1.g3, hS1.g5, hS1.g7, hS1.g8⟩⟩
+    exact { hI with
+      qsub := by
+        intro j hj
+        rcases List.mem_append.1 hj with hj | hj
+        · exact hI.qsub j hj
+        · simp at hj; subst hj; exact hc.1
+      qnodup := by
+        show (s.queue ++ [a]).Nodup
+        rw [List.nodup_append]
+        refine ⟨hI.qnodup, by simp, ?_⟩
+        intro x hx y hy
+        simp at hy; subst hy
+        intro hxy; subst hxy; exact hc.2 hx }
+  · exact ⟨inv_coreEq s _ ⟨rfl, rfl, rfl, rfl, rfl, rfl, rfl, rfl, rfl, rfl, rfl⟩ hI, hS1⟩
+
+theorem release_fields (s : St) (a : Nat) :
+    (release s a).polledAt = s.polledAt ∧ (release s a).now = s.now ∧ (release s a).delays = s.delays := by
+  unfold release; simp only; split <;> exact ⟨rfl, rfl, rfl⟩
+
+theorem full_releaseAll (l : List Nat) (s : St) (h : Full s)
+    (hw : ∀ a ∈ l, ∃ t1, (a, t1) ∈ s.polledAt ∧ t1 + delayOf s a ≤ s.now) : Full (l.foldl release s) := by
+  induction l generalizing s with
+  | nil => exact h
+  | cons a r ih =>
+    simp only [List.foldl_cons]
+    apply ih _ (full_release s a h (hw a (by simp)))
+    intro x hx
+    obtain ⟨t1, h1, h2⟩ := hw x (by simp [hx])
+    obtain ⟨e1, e2, e3⟩ := release_fields s a
+    refine ⟨t1, by rw [e1]; exact h1, ?_⟩
+    have : delayOf (release s a) x = delayOf s x := by unfold delayOf; rw [e3]
+    rw [this, e2]; exact h2
+
+theorem full_advance (s : St) (d : Nat) (h : Full s) : Full (advance s d) := by
+  obtain ⟨hI, hS⟩ := h
+  unfold advance
+  split
+  · refine ⟨inv_coreEq s _ ⟨rfl, rfl, rfl, rfl, rfl, rfl, rfl, rfl, rfl, rfl, rfl⟩ hI, ?_⟩
+    refine ⟨hS.sub, hS.errSt, hS.winSt, hS.g0, hS.g1, ?_, hS.g3, hS.g5, ?_, hS.g8⟩
+    · intro a ha
+      obtain ⟨t1, h1, h2⟩ := hS.g2 a ha
+      exact ⟨t1, h1, by show t1 + delayOf s a ≤ s.now + d; omega⟩
+    · intro t0 h0; have := hS.g7 t0 h0; show t0 ≤ s.now + d; omega
+  · apply full_releaseAll
+    · refine ⟨inv_coreEq s _ ⟨rfl, rfl, rfl, rfl, rfl, rfl, rfl, rfl, rfl, rfl, rfl⟩ hI, ?_⟩
+      refine ⟨hS.sub, hS.errSt, hS.winSt, hS.g0, ?_, ?_, hS.g3, hS.g5, ?_, hS.g8⟩
+      · intro e he
+        exact hS.g1 e (List.mem_filter.1 he).1
+      · intro a ha
+        obtain ⟨t1, h1, h2⟩ := hS.g2 a ha
+        exact ⟨t1, h1, by show t1 + delayOf s a ≤ s.now + d; omega⟩
+      · intro t0 h0; have := hS.g7 t0 h0; show t0 ≤ s.now + d; omega
+    · intro a ha
+      simp only [List.mem_map, List.mem_filter, decide_eq_true_eq] at ha
+      obtain ⟨e, ⟨he, hdue⟩, rfl⟩ := ha
+      obtain ⟨t1, h1, h2⟩ := hS.g1 e he
+      exact ⟨t1, h1, by show t1 + delayOf s e.1 ≤ s.now + d; omega⟩
+
+theorem full_step (s : St) (o : Op) (h : Full s) : Full (step s o).1 := by
   cases o with
-  | complete i b => exact inv_complete s i b h
-  | poll => exact inv_pollLoop _ s h
+  | complete i b => exact full_complete s i b h
+  | poll => exact full_poll s h
+  | adv d => exact full_advance s d h
+
+theorem inv_step (s : St) (o : Op) (h : Full s) : Inv (step s o).1 := (full_step s o h).inv
+
+theorem sinv_init (s : St) (h1 : s.started = []) (h2 : s.errors = []) (h3 : s.winner = none)
+    (h4 : s.startedAt = []) (h5 : s.armed = []) (h6 : s.released = []) (h7 : s.polledAt = [])
+    (h8 : s.firstPoll = none) : SInv s := by
+  refine ⟨by rw [h1]; simp, by rw [h2]; simp, by rw [h3]; simp, by rw [h4, h1]; rfl, by rw [h5]; simp,
+    by rw [h6]; simp, by rw [h4]; simp, by rw [h7]; simp, by rw [h8]; simp, fun _ => h7⟩
+
+theorem full_new (n k : Nat) (hk : 0 < k) : Full (new n k) :=
+  ⟨inv_new n k hk, sinv_init _ rfl rfl rfl rfl rfl rfl rfl rfl⟩
+
+theorem full_newSmart (order : List Nat) (delays : List (Nat × Nat))
+    (hp : order.Perm (allDials order.length)) : Full (newSmart order delays) := by
+  refine ⟨?_, sinv_init _ rfl rfl rfl rfl rfl rfl rfl rfl⟩
+  exact {
+    kpos := by show 0 < max order.length 1; omega
+    perm := by simpa [newSmart] using hp
+    window := by show order.length ≤ max order.length 1; omega
+    qsub := fun i hi => hi
+    qnodup := hp.nodup_iff.2 (allDials_nodup _)
+    refill := fun _ h => by simp [newSmart] at h ⊢
+    startedNodup := by simp [newSmart]
+    errOutcome := by simp [newSmart]
+    winOutcome := by simp [newSmart]
+    maxIn := by simp [newSmart]
+    res := by simp [newSmart] }
 
 /-- every state reachable from `ConcurrentDial::new(n dials, k)` by any interleaving of transport
-outcomes (succeed / fail / stay pending, before or after the dial was started) and polls -/
+outcomes (succeed / fail / stay pending, before or after the dial was started), clock advances and polls -/
 def reach (n k : Nat) (ops : List Op) : St := Machine.exec step (new n k) ops
 
+/-- … from `SmartDial::new` over dials pushed in `order` with the given ranked delays -/
+def reachS (order : List Nat) (delays : List (Nat × Nat)) (ops : List Op) : St :=
+  Machine.exec step (newSmart order delays) ops
+
+theorem full_exec (s0 : St) (h : Full s0) (ops : List Op) : Full (Machine.exec step s0 ops) :=
+  Machine.invariant_of_step step Full full_step ops _ h
+
 theorem inv_reach (n k : Nat) (hk : 0 < k) (ops : List Op) : Inv (reach n k ops) :=
-  Machine.invariant_of_step step Inv inv_step ops _ (inv_new n k hk)
+  (full_exec _ (full_new n k hk) ops).inv
 
-theorem startNext_nk (s : St) : (startNext s).n = s.n ∧ (startNext s).k = s.k := by
-  unfold startNext; split <;> exact ⟨rfl, rfl⟩
+/-! ## fields that never change -/
+theorem startNext_nk (s : St) : (startNext s).n = s.n ∧ (startNext s).k = s.k ∧ (startNext s).delays = s.delays := by
+  unfold startNext; split <;> exact ⟨rfl, rfl, rfl⟩
 
-theorem pollLoop_nk (fuel : Nat) (s : St) : (pollLoop fuel s).n = s.n ∧ (pollLoop fuel s).k = s.k := by
+theorem pollLoop_nk (fuel : Nat) (s : St) :
+    (pollLoop fuel s).n = s.n ∧ (pollLoop fuel s).k = s.k ∧ (pollLoop fuel s).delays = s.delays := by
   induction fuel generalizing s with
-  | zero => exact ⟨rfl, rfl⟩
+  | zero => exact ⟨rfl, rfl, rfl⟩
   | succ f ih =>
     unfold pollLoop
     split
-    · exact ⟨rfl, rfl⟩
+    · exact ⟨rfl, rfl, rfl⟩
     split
-    · exact ⟨rfl, rfl⟩
+    · exact ⟨rfl, rfl, rfl⟩
     split
-    · exact ⟨rfl, rfl⟩
+    · exact ⟨rfl, rfl, rfl⟩
     rename_i t q _
+    have tail : ∀ s' : St, s'.n = s.n → s'.k = s.k → s'.delays = s.delays →
+        ((match outcomeOf s' t with
+          | none => pollLoop f (deq s' t q)
+          | some true => succeed (deq s' t q) t
+          | some false => pollLoop f (startNext (fail (deq s' t q) t))).n = s.n ∧
+         (match outcomeOf s' t with
+          | none => pollLoop f (deq s' t q)
+          | some true => succeed (deq s' t q) t
+          | some false => pollLoop f (startNext (fail (deq s' t q) t))).k = s.k ∧
+         (match outcomeOf s' t with
+          | none => pollLoop f (deq s' t q)
+          | some true => succeed (deq s' t q) t
+          | some false => pollLoop f (startNext (fail (deq s' t q) t))).delays = s.delays) := by
+      intro s' e1 e2 e3
+      split
+      · have := ih (deq s' t q); exact ⟨this.1.trans e1, this.2.1.trans e2, this.2.2.trans e3⟩
+      · exact ⟨e1, e2, e3⟩
+      · have := ih (startNext (fail (deq s' t q) t))
+        have h2 := startNext_nk (fail (deq s' t q) t)
+        exact ⟨(this.1.trans h2.1).trans e1, (this.2.1.trans h2.2.1).trans e2, (this.2.2.trans h2.2.2).trans e3⟩
+    cases hg : gate s t q with
+    | wait s' =>
+      simp only
+      rcases gate_wait_cases s t q s' hg with ⟨_, he⟩ | he <;> subst he <;> exact ih _
+    | pass s' =>
+      simp only
+      rcases gate_pass_cases s t q s' hg with ⟨_, he⟩ | ⟨_, he⟩ | ⟨_, he⟩ <;> rw [he] <;> exact tail _ rfl rfl rfl
+
+theorem step_nk (s : St) (o : Op) :
+    (step s o).1.n = s.n ∧ (step s o).1.k = s.k ∧ (step s o).1.delays = s.delays := by
+  cases o with
+  | complete i b =>
+    simp only [step, complete]
     split
-    · exact ih _
-    · exact ⟨rfl, rfl⟩
-    · have := ih (startNext (fail (deq s t q) t))
-      rw [(startNext_nk _).1, (startNext_nk _).2] at this
-      exact this
+    · exact ⟨rfl, rfl, rfl⟩
+    · split <;> exact ⟨rfl, rfl, rfl⟩
+  | poll =>
+    simp only [step, poll]
+    split <;> exact pollLoop_nk _ _
+  | adv d =>
+    simp only [step, advance]
+    split
+    · exact ⟨rfl, rfl, rfl⟩
+    · generalize (List.map (fun x => x.1) (List.filter (fun e => decide (e.2 ≤ s.now + d)) s.armed)) = l
+      have : ∀ (l : List Nat) (s' : St), (l.foldl release s').n = s'.n ∧ (l.foldl release s').k = s'.k ∧
+          (l.foldl release s').delays = s'.delays := by
+        intro l
+        induction l with
+        | nil => intro s'; exact ⟨rfl, rfl, rfl⟩
+        | cons a r ih =>
+          intro s'
+          have h1 : (release s' a).n = s'.n ∧ (release s' a).k = s'.k ∧ (release s' a).delays = s'.delays := by
+            unfold release; simp only; split <;> exact ⟨rfl, rfl, rfl⟩
+          have := ih (release s' a)
+          simp only [List.foldl_cons]
+          exact ⟨this.1.trans h1.1, this.2.1.trans h1.2.1, this.2.2.trans h1.2.2⟩
+      exact this l _
+
+theorem exec_nk (s0 : St) (ops : List Op) :
+    (Machine.exec step s0 ops).n = s0.n ∧ (Machine.exec step s0 ops).k = s0.k ∧
+    (Machine.exec step s0 ops).delays = s0.delays := by
+  induction ops generalizing s0 with
+  | nil => exact ⟨rfl, rfl, rfl⟩
+  | cons o r ih =>
+    have h1 := step_nk s0 o
+    have := ih (step s0 o).1
+    simp only [Machine.exec, List.foldl_cons] at this ⊢
+    exact ⟨this.1.trans h1.1, this.2.1.trans h1.2.1, this.2.2.trans h1.2.2⟩
 
 theorem reach_nk (n k : Nat) (ops : List Op) : (reach n k ops).n = n ∧ (reach n k ops).k = k := by
-  have : ∀ s : St, (Machine.exec step s ops).n = s.n ∧ (Machine.exec step s ops).k = s.k := by
-    induction ops with
-    | nil => intro s; exact ⟨rfl, rfl⟩
-    | cons o r ih =>
-      intro s
-      have h1 : (step s o).1.n = s.n ∧ (step s o).1.k = s.k := by
-        cases o with
-        | complete i b => simp only [step, complete]; repeat' split <;> simp
-        | poll => exact pollLoop_nk _ s
-      have := ih (step s o).1
-      simp only [Machine.exec, List.foldl_cons] at this ⊢
-      rw [h1.1, h1.2] at this; exact this
-  exact this (new n k)
+  have := exec_nk (new n k) ops
+  exact ⟨this.1, this.2.1⟩
 
-/-- **C08.inflight_le_k** — at most `k` dials are in the `FuturesUnordered`, hence at most `k`
-started-and-unfinished transport dials, in every reachable state; also the running maximum. -/
-theorem inflight_le_k (n k : Nat) (hk : 0 < k) (ops : List Op) :
-    (reach n k ops).inflight.length ≤ k ∧ (live (reach n k ops)).length ≤ k ∧ (reach n k ops).maxIn ≤ k := by
-  have h := inv_reach n k hk ops
-  have hk' := (reach_nk n k ops).2
-  have := h.window; have := h.maxIn
-  have : (live (reach n k ops)).length ≤ (reach n k ops).inflight.length := List.length_filter_le _ _
-  omega
-
-/-- **C08.started_once** — every address is attempted at most once: the list of started dials has
-no duplicates, and not-yet-started / in-flight / failed / winning dials partition the input. -/
-theorem started_once (n k : Nat) (hk : 0 < k) (ops : List Op) :
-    (reach n k ops).started.Nodup ∧
-    ((reach n k ops).pending ++ (reach n k ops).inflight ++ (reach n k ops).errors
-      ++ (reach n k ops).winner.toList).Perm (allDials n) := by
-  have h := inv_reach n k hk ops
-  have hp := h.perm
-  rw [(reach_nk n k ops).1] at hp
-  exact ⟨h.startedNodup, hp⟩
-
-/-- **C08.success_iff** (⇒) — if the dial resolves `Ok(w, es)` then `w`'s transport dial succeeded,
-and `es` are exactly the dials that failed before, each of which did fail. -/
-theorem success_sound (n k : Nat) (hk : 0 < k) (ops : List Op) (w : Nat) (es : List Nat)
-    (hr : (reach n k ops).result = some (.ok w es)) :
-    outcomeOf (reach n k ops) w = some true ∧ es = (reach n k ops).errors ∧ es.Nodup ∧ w ∉ es ∧
-    ∀ i ∈ es, outcomeOf (reach n k ops) i = some false := by
-  have h := inv_reach n k hk ops
-  have hres := h.res
-  rw [hr] at hres
-  obtain ⟨hw, rfl⟩ := hres
-  have hnd := h.nodup
-  rw [hw] at hnd
-  simp only [Option.toList_some, List.append_assoc] at hnd
-  have h3 : ((reach n k ops).errors ++ [w]).Nodup := by
-    have := (List.nodup_append.1 hnd).2.1
-    exact (List.nodup_append.1 this).2.1
-  refine ⟨h.winOutcome w hw, rfl, (List.nodup_append.1 h3).1, ?_, h.errOutcome⟩
-  intro hmem
-  exact (List.nodup_append.1 h3).2.2 w hmem w (by simp) rfl
-
-/-- **C08.failure_reports_all** — if the dial resolves `Err(es)` then every one of the `n` addresses
-was attempted and failed, and `es` lists each of them exactly once (a permutation of the input);
-in particular no attempted address succeeded. -/
-theorem failure_reports_all (n k : Nat) (hk : 0 < k) (ops : List Op) (es : List Nat)
-    (hr : (reach n k ops).result = some (.err es)) :
-    es.Perm (allDials n) ∧ ∀ i ∈ es, outcomeOf (reach n k ops) i = some false := by
-  have h := inv_reach n k hk ops
-  have hres := h.res
-  rw [hr] at hres
-  obtain ⟨rfl, hin, hpe, hw⟩ := hres
-  have hp := h.perm
-  rw [hin, hpe, hw, (reach_nk n k ops).1] at hp
-  exact ⟨by simpa using hp, h.errOutcome⟩
-
-/-- **C08.success_complete** (⇐, contrapositive form) — the dial never resolves `Err` while some
-address's transport dial has succeeded: a success among the attempted addresses wins. -/
-theorem no_failure_after_success (n k : Nat) (hk : 0 < k) (ops : List Op) (es : List Nat) (i : Nat)
-    (hi : i ∈ allDials n) (hr : (reach n k ops).result = some (.err es)) :
-    outcomeOf (reach n k ops) i ≠ some true := by
-  obtain ⟨hp, ho⟩ := failure_reports_all n k hk ops es hr
-  have := ho i (hp.mem_iff.2 hi)
-  rw [this]; simp
-
-/-- **C08.smart_once** — `SmartDial` is the machine with every dial pushed at once (window `n`):
-every address is attempted at most once and the same success / failure clauses hold. -/
-theorem smart_once (n : Nat) (ops : List Op) :
-    (reach n (max n 1) ops).started.Nodup ∧
-    (∀ es, (reach n (max n 1) ops).result = some (.err es) → es.Perm (allDials n)) :=
-  ⟨(started_once n _ (by omega) ops).1, fun es hr => (failure_reports_all n _ (by omega) ops es hr).1⟩
-
-/-- **C08.terminates** — once every dial has an outcome and was polled, the dial is resolved: a
-poll with an empty `FuturesUnordered` resolves with `Err`. -/
-theorem resolves_when_empty (s : St) (fuel : Nat) (h1 : s.result = none) (h2 : s.inflight = []) :
-    (pollLoop (fuel + 1) s).result = some (.err s.errors) := by
-  simp [pollLoop, h1, h2]
-
-/-! non-vacuity / examples -/
-example : (poll (complete (complete (poll (new 3 2)) 1 false) 2 false)).started = [1, 2, 3] := by decide
-example : (poll (complete (poll (complete (complete (poll (new 3 2)) 1 false) 2 false)) 3 false)).result
-    = some (.err [1, 2, 3]) := by decide
-example : (poll (complete (complete (poll (new 3 1)) 1 false) 2 true)).result = some (.ok 2 [1]) := by decide
-
-end C08
-
-#print axioms C08.inflight_le_k
-#print axioms C08.started_once
-#print axioms C08.success_sound
-#print axioms C08.failure_reports_all
-#print axioms C08.no_failure_after_success
-#print axioms C08.smart_once
-#print axioms C08.resolves_when_empty
-#print axioms C08.inv_reach
